@@ -681,3 +681,53 @@ pub proof fn lemma_wide_step_many(x: Seq<u8>, t0: u64, key: Seq<u32>, flags: u8,
         assert(py =~= ys);
     }
 }
+
+// pairing a covering list of more than two CVs gives a covering list
+pub proof fn lemma_pairwise_covers(z: Seq<SpCv>, x: Seq<u8>, t0: u64, key: Seq<u32>, flags: u8)
+    requires
+        z.len() > 2,
+        sp_covers(z, x, t0, key, flags),
+    ensures
+        sp_covers(sp_pairwise(z, key, flags), x, t0, key, flags),
+{
+    reveal(sp_covers);
+    let n = z.len();
+    lemma_lp2(n);
+    let p = sp_lp2(n) as int;
+    let a = z.subrange(0, p);
+    let b = z.subrange(p, n as int);
+    assert(z =~= a + b);
+    lemma_pow2_half(p);
+    lemma_pairwise_concat(a, b, key, flags);
+    let pa = sp_pairwise(a, key, flags);
+    let pb = sp_pairwise(b, key, flags);
+    let pz = sp_pairwise(z, key, flags);
+    assert(pz == pa + pb);
+    lemma_lp2_concat(pa.len(), pb.len());
+    assert(pz.subrange(0, pa.len() as int) =~= pa);
+    assert(pz.subrange(pa.len() as int, pz.len() as int) =~= pb);
+    lemma_pairwise_tree(a, key, flags);
+    if b.len() >= 2 {
+        lemma_pairwise_tree(b, key, flags);
+    } else {
+        assert(pb =~= b);
+    }
+}
+
+// a covering list of exactly two CVs is the pair of child chaining values
+pub proof fn lemma_covers_two(z: Seq<SpCv>, x: Seq<u8>, t0: u64, key: Seq<u32>, flags: u8)
+    requires
+        z.len() == 2,
+        sp_covers(z, x, t0, key, flags),
+    ensures
+        ({
+            let l = sp_left_len(x.len()) as int;
+            &&& z[0] == sp_subtree_cv(x.subrange(0, l), t0, key, flags)
+            &&& z[1] == sp_subtree_cv(x.subrange(l, x.len() as int), (t0 + l / 1024) as u64, key, flags)
+        }),
+{
+    reveal(sp_covers);
+    assert(sp_lp2(2) == 1);
+    assert(z.subrange(0, 1) =~= seq![z[0]]);
+    assert(z.subrange(1, 2) =~= seq![z[1]]);
+}
